@@ -23,7 +23,8 @@ func vpBuildState(n, depth, maxc int, untracked bool) ([]vpTracked, []vpFile) {
 		for _, o := range ts {
 			zzvp.Assume(o.path != p && !vpHasDirPrefix(p, o.path) && !vpHasDirPrefix(o.path, p))
 		}
-		c := zzvp.Bytes("tc"+id, 1, "")
+		// staged bytes are fixed and pairwise distinct; the later edits are free (and may equal another file's bytes)
+		c := []byte{byte('A' + i)}
 		zzvp.WriteFile(w+"/"+p, c)
 		vpOK(zzvp.Run("add", p))
 		ts = append(ts, vpTracked{path: p, staged: c, current: c, exists: true})
@@ -31,7 +32,11 @@ func vpBuildState(n, depth, maxc int, untracked bool) ([]vpTracked, []vpFile) {
 	for i := range ts {
 		switch zzvp.Choose(3) {
 		case 1:
-			nc := zzvp.Bytes("te"+string(rune('0'+i)), 1, "")
+			// the first file's new bytes are free (they may equal any other file's bytes); the others get fixed new bytes
+			nc := []byte{byte('a' + i)}
+			if i == 0 {
+				nc = zzvp.Bytes("te0", 1, "")
+			}
 			zzvp.WriteFile(w+"/"+ts[i].path, nc)
 			ts[i].current = nc
 		case 2:
@@ -45,7 +50,7 @@ func vpBuildState(n, depth, maxc int, untracked bool) ([]vpTracked, []vpFile) {
 		for _, o := range ts {
 			zzvp.Assume(o.path != p && !vpHasDirPrefix(p, o.path) && !vpHasDirPrefix(o.path, p))
 		}
-		c := zzvp.Bytes("uc0", 1, "")
+		c := []byte("U")
 		zzvp.WriteFile(w+"/"+p, c)
 		us = append(us, vpFile{p, c})
 	}
@@ -128,6 +133,64 @@ func VP_C04_Add() {
 	} else {
 		zzvp.Assert(vpSamePairList(before, after), "a refused add changes nothing in the staging area")
 		zzvp.Assert(!named, "a tracked or existing path is always addressable by add")
+	}
+	zzvp.Done()
+}
+
+// VP_C04_AddMulti: argument lists mixing files, a directory, deleted-but-tracked paths and repeated arguments.
+func VP_C04_AddMulti() {
+	vpInitRepo()
+	w := zzvp.Root()
+	// tracked: old (deleted later), keep (edited later), dir/in (edited later); untracked: new
+	for _, f := range []string{"old", "keep", "dir/in"} {
+		zzvp.WriteFile(w+"/"+f, []byte("1"))
+	}
+	vpOK(zzvp.Run("add", "old", "keep", "dir"))
+	zzvp.RemoveAll(w + "/old")
+	zzvp.WriteFile(w+"/keep", []byte("2"))
+	zzvp.WriteFile(w+"/dir/in", []byte("3"))
+	zzvp.WriteFile(w+"/new", []byte("4"))
+	pool := []string{"old", "keep", "new", "dir", "dir/in", "nosuch"}
+	n := 1 + zzvp.Choose(zzvp.Param("args", 3))
+	var args []string
+	for i := 0; i < n; i++ {
+		args = append(args, pool[zzvp.Choose(len(pool))])
+	}
+	before, _ := vpReadIndex()
+	r := zzvp.Run(append([]string{"add"}, args...)...)
+	zzvp.Assert(r.Exit == 0 || r.Exit == 1, "add ends with status 0 or 1")
+	after, ok := vpReadIndex()
+	zzvp.Assert(ok, "the staging area decodes after add")
+	if r.Exit == 0 {
+		content := map[string]string{"keep": "2", "new": "4", "dir/in": "3"}
+		named := map[string]bool{}
+		for _, a := range args {
+			if a == "dir" {
+				named["dir/in"] = true
+			} else {
+				named[a] = true
+			}
+		}
+		good := true
+		for _, p := range []string{"keep", "new", "dir/in"} {
+			id, found := vpFindPair(after, p)
+			if named[p] {
+				if !found || id != string(vpBlobID([]byte(content[p]))) {
+					good = false
+				}
+			} else {
+				oid, was := vpFindPair(before, p)
+				if found != was || id != oid {
+					good = false
+				}
+			}
+		}
+		_, oldStaged := vpFindPair(after, "old")
+		if named["old"] == oldStaged {
+			good = false
+		}
+		zzvp.Assert(good && !named["nosuch"], "a successful add staged every named file with its current bytes, unstaged the named deleted path and left the rest alone")
+		zzvp.Assert(vpFsck() == "", "every staged path refers to a stored blob")
 	}
 	zzvp.Done()
 }
